@@ -16,6 +16,15 @@ def render(c):
     pay = chars(c["pay"])
     d = c["del"]
     files, vh, env = {}, {}, {}
+    if d in ("assignvar", "assignsub", "assignbq"):
+        # the produced text is the value of an assignment word: it is assigned whole, whatever characters it holds
+        if d == "assignvar":
+            env, rhs = {"PV": pay}, "$PV"
+        elif d == "assignsub":
+            vh, rhs = {"out.1": pay + "\n"}, "k$(vout 1)"
+        else:
+            vh, rhs = {"out.1": pay + "\n"}, "`vout 1`"
+        return "X=%s ; vpa L \"$X\" R ; vpa probe" % rhs, ["L"], ["R"], files, vh, env
     if d == "var":
         word, env = "$PV", {"PV": pay}
     elif d == "bvar":
@@ -67,6 +76,8 @@ def judge(rep, c, line, b, a, files, res):
         pay = pay + "z"
     elif c["del"] in ("var2r", "envsub", "envbq"):
         pay = "z" + pay
+    elif c["del"] == "assignsub":
+        pay = "k" + pay
     pay = c.get("pre", "") + pay
     feat = {"pre": c.get("pre", ""), "del": c["del"], "q": c["q"], "pos": c["pos"], "pay": raw, "pay_is_amp": raw == "&", "chars": sorted(set(pay) & set("|&;<>#"))}
     rec = {"case": c, "line": line, "status": res.get("status"), "stderr": res.get("stderr", "")[-300:], "log": res.get("log"),
@@ -128,10 +139,14 @@ def runner(rep, tier, seed, replay):
         cases.append(dict(vs[k], pair=ds[-1 - k]["pay"]))
     cases += [dict(c, **{"del": ("envsub" if k % 2 == 0 else "envbq")}) for k, c in enumerate(cases)
               if c["del"] == "var" and not c.get("realin") and c.get("pair") is None and chars(c["pay"]).strip() == chars(c["pay"]) and chars(c["pay"]) != ""]
+    cases += [dict(c, **{"del": ("assignvar", "assignsub", "assignbq")[k % 3], "q": "dq", "pos": "middle"}) for k, c in enumerate(cases)
+              if c["del"] == "var" and c["q"] == "dq" and c["pos"] == "middle" and not c.get("realin") and c.get("pair") is None and chars(c["pay"]) != ""]
     log("[C13] %d cases" % len(cases))
     jobs, meta = [], []
     for c in cases:
-        if c["del"] not in ("glob", "glob2"):
+        if c["del"] in ("assignvar", "assignsub", "assignbq"):
+            c["pre"] = ""
+        elif c["del"] not in ("glob", "glob2"):
             c["pre"] = ["", "", "", "k=", "--o=", "x."][stable_hash(json.dumps(c, sort_keys=True)) % 6]
         line, b, a, files, vh, env = render(c)
         jobs.append({"entry": "c", "text": line, "files": files, "vhfiles": vh, "env": dict(env, VH_DELAY_IF_LAST_AMP="200"), "timeout": 8,
